@@ -17,6 +17,9 @@ def T(comps, links, **kw):
         d = {"src": src, "dst": dst, "ada": list(l[2]) if len(l) > 2 else []}
         if len(l) > 3:
             d.update(l[3])
+        if "tap" in d:
+            # a tapped link branches off behind adapter d["tap"][1] of link d["tap"][0] (same source output)
+            d["out"] = ls[d["tap"][0]].get("out", f"o{d['tap'][0]}")
         ls.append(d)
     t = {"comps": cs, "links": ls}
     t.update(kw)
@@ -134,3 +137,22 @@ FINISHING = {
     "finisher_alone": T([{"name": "F", "finish_after": 1}, "A", "B"], [("A", "B")]),
     "finisher_feeds_dpush": T([{"name": "F", "finish_after": 2}, "B"], [("F", "B", ["dpush"])]),
 }
+
+# branching behind adapters ("tap": [parent link, adapter position])
+TAPS = {
+    # gen.Out >> a1 >> B ; a1 >> a2 >> a3 >> C   (consumer of the short branch listed first)
+    "tap_long_branch": T(["A", "B", "C"], [("A", "B", ["scale"]), ("A", "C", ["scale", "scale"], {"tap": [0, 0]})],
+                         order=[1, 0, 2]),
+    # A.Out >> Scale >> {B, C}  and  A.Out >> LinearTime >> D
+    "tap_scale_and_linear": T(["A", "B", "C", "D"],
+                              [("A", "B", ["scale"], {"out": "o"}), ("A", "C", [], {"tap": [0, 0]}),
+                               ("A", "D", ["linear"], {"out": "o"})]),
+    # two consumers with different clocks behind ONE DelayFixed
+    "tap_shared_dfix": T(["A", "B", "C"], [("A", "B", ["dfix"]), ("A", "C", [], {"tap": [0, 0]})]),
+    "tap_shared_scale": T(["A", "B", "C"], [("A", "B", ["scale"]), ("A", "C", [], {"tap": [0, 0]})], order=[1, 0, 2]),
+}
+# upstream chain into a pull-based component, consumer listed first
+DAGS["a0_a_p_b_rev"] = T(["A0", "A", "P", "B"], [("A0", "A"), ("A", "P"), ("P", "B")], order=[3, 2, 1, 0])
+DAGS["a0_a_p_b"] = T(["A0", "A", "P", "B"], [("A0", "A"), ("A", "P"), ("P", "B")])
+# one consumer reading two pull-based components in parallel
+DAGS["two_pulls_parallel"] = T(["A", "B", "P", "PQ", "C"], [("A", "P"), ("B", "PQ"), ("P", "C"), ("PQ", "C")])
